@@ -6,10 +6,9 @@
    Quaternion._outer_dask / Vector3d._dot_outer_dask on every check), the eager
    kernels from Gen/QuatKernels.v; chunked evaluation from Model/C18Nd.v.
    Objects are (shape, flat C-order list); a rotation is (quaternion, improper
-   flag) as in Model/Quat.v.  The model is FAITHFUL to /repo as it is: the lazy
-   Orientation path returns other.shape ++ self.shape and ignores improper
-   flags, the eager one transposes with an axis order that is only right when
-   both operands have the same number of axes. *)
+   flag) as in Model/Quat.v.  The model is FAITHFUL to /repo as it is: both
+   Orientation paths compute other x ~self and transpose the two groups of axes
+   to self.shape ++ other.shape; the lazy one ignores improper flags. *)
 From Coq Require Import ZArith List Bool.
 From Verif Require Import Scalar NdIndex QuatKernels Conversions Quat RotArr C18Dask C18Nd.
 Import ListNotations.
@@ -85,7 +84,8 @@ Definition sym_dot_eager (S : list rot) (m : rot) : T := lmax0 (map (sym_term_ea
 Definition sym_dot_lazy (S : list rot) (m : quat) : T :=
   lmax0 (map (fun s => o_abs O (qdot O m (fst s))) S).
 
-Definition eager_order (ns no : nat) : list nat := seq ns no ++ seq 0 ns.
+(* order = range(other.ndim, other.ndim + self.ndim) + range(other.ndim), in both modes *)
+Definition eager_order (ns no : nat) : list nat := seq no ns ++ seq 0 no.
 
 (* self = X (shape ss), other = Y (shape so), S = unique symmetry elements *)
 Definition ori_dot_outer_eager (ss so : list nat) (X Y S : list rot) : list nat * list T :=
@@ -95,9 +95,10 @@ Definition ori_dot_outer_eager (ss so : list nat) (X Y S : list rot) : list nat 
   (tr_shape (so ++ ss) order, transpose_nd (o_ofZ O 0) (so ++ ss) hd order).
 
 Definition ori_dot_outer_lazy (k : nat) (ss so : list nat) (X Y S : list rot) : list nat * list T :=
-  (so ++ ss,
-   blocked_outer (zq O) (zq O) (o_ofZ O 0) (fun y x => sym_dot_lazy S (dq_mul y x)) k so ss
-                 (map fst Y) (map (fun x => qconj O (fst x)) X)).
+  let hd := blocked_outer (zq O) (zq O) (o_ofZ O 0) (fun y x => sym_dot_lazy S (dq_mul y x)) k so ss
+                          (map fst Y) (map (fun x => qconj O (fst x)) X) in
+  let order := eager_order (length ss) (length so) in
+  (tr_shape (so ++ ss) order, transpose_nd (o_ofZ O 0) (so ++ ss) hd order).
 
 (* arccos(2 d^2 - 1) with nan_to_num (argument above 1 -> nan -> 0) *)
 Definition ang (d : T) : T :=
@@ -114,9 +115,7 @@ Definition drop_flags (X : list rot) : list rot := map (fun x => (fst x, false))
 Definition awo_eager_with (h : T -> T) (ss so : list nat) (X Y S : list rot) : list nat * list T :=
   let r := ori_dot_outer_eager ss so (drop_flags X) Y S in (fst r, map h (snd r)).
 Definition awo_lazy_with (h : T -> T) (k : nat) (ss so : list nat) (X Y S : list rot) : list nat * list T :=
-  (so ++ ss,
-   blocked_outer (zq O) (zq O) (h (o_ofZ O 0)) (fun y x => h (sym_dot_lazy S (dq_mul y x))) k so ss
-                 (map fst Y) (map (fun x => qconj O (fst x)) X)).
+  let r := ori_dot_outer_lazy k ss so (drop_flags X) Y S in (fst r, map h (snd r)).
 Definition awo_eager := awo_eager_with ang.
 Definition awo_lazy := awo_lazy_with ang.
 
